@@ -86,7 +86,8 @@ CLAIMS['C12'] = {
              'model of Lower::get fails only if the tree holds no aligned entirely free block of the order (and then changes nothing), '
              'never panics, and a success returns such a block of the searched tree, inside the managed range, marking exactly it and '
              'preserving the invariant. Built from proved specifications of toggle (all orders, with roll-back), set_first_zeros '
-             '(row search via the C23 theorem; chunk search), compare_exchange_all, put_small, partial_put_huge.'),
+             '(row search via the C23 theorem; chunk search), compare_exchange_all, put_small, partial_put_huge.'
+             ' Theorem huge_entry_transitions_match_source: impl HugeEntry (new_huge, new_with, huge, free, dec, inc - the counters and the huge marker of the lower allocator) is regenerated from core/src/lower.rs on every run by the translator (Gen/Huge.lean) and proved equal to the model\'s transitions for every entry value and amount.'),
     'note': TB + ' Depends on the C23 theorem, hence also on the bv_decide axioms LLFree.FzaBv.*._native.bv_decide.ax_*.',
     'technique': 'Lean 4 refinement proof of the lower allocator (sequential semantics, invariant + per-function specifications by induction over the loops) + differential runs on crafted tree patterns',
 }
@@ -175,7 +176,8 @@ CLAIMS['C04'] = {
              'ending quiescent with tree counter 64 although only 63 frames of the tree are free (the frames of a free that raced with the Online fetch are counted twice); on the real code '
              'tree_stats().free_frames exceeds the exact count and validate() fails (findings/K3-online-race.txt, conc scenario kind 7 of every run).' + PART + 'interleavings in which a call trapped, partial frees of huge allocations (K1) and change_tree under interleavings (K3: false for Online racing with a free) are carried by '
              'the accounting oracle of the sequential and concurrent correspondence.'
-             ' Theorem counter_transitions_match_source: the entry transitions that move counters (Tree::with, Tree::put, and impl LocalTree: with, none, get, put, set_start) are regenerated from core/src/trees.rs and core/src/local.rs on every run by the translator (Gen/Tree.lean, Gen/Local.lean) and proved equal to the model\'s transitions for every argument.'),
+             ' Theorem counter_transitions_match_source: the entry transitions that move counters (Tree::with, Tree::put, and impl LocalTree: with, none, get, put, set_start) are regenerated from core/src/trees.rs and core/src/local.rs on every run by the translator (Gen/Tree.lean, Gen/Local.lean) and proved equal to the model\'s transitions for every argument.'
+             ' Theorem huge_entry_transitions_match_source: impl HugeEntry (new_huge, new_with, huge, free, dec, inc - the counters and the huge marker of the lower allocator) is regenerated from core/src/lower.rs on every run by the translator (Gen/Huge.lean) and proved equal to the model\'s transitions for every entry value and amount.'),
     'note': TB + ' Upper-level theorems hold for configurations satisfying CfgOk (class ids < 8, ordered policy, tree size < 2^19: every configuration of the repository; derived from elementary checks by CfgOk.of_checks); they depend on the C23 theorem (bv_decide axioms) through the lower search.',
     'technique': 'Lean 4 theorems from the lower and upper invariants + accounting oracle in the sequential differential and at quiescent ends of co-simulated interleavings',
 }
